@@ -61,8 +61,10 @@ func runC05(c *Ctx) {
 	ruleServeFromHead(c, "R5.7")
 	ruleNoWaitOnCancelledContext(c, "R5.6")
 	ruleSyncTriesAllPeers(c, "R5.9")
-	ruleAppendStorePut(c, "R5.10")   // a failed write leaves the head where it was: the round can still be appended later
-	ruleSignedRound(c, "R5.8", sign) // after a halt the partial signed is head+1, the only round that can be appended
+	ruleAppendStorePut(c, "R5.10")               // a failed write leaves the head where it was: the round can still be appended later
+	ruleAggregation(c, "R5.11")                  // the signature is recovered with the threshold (t of n), not more: with n in its place a round needs every node
+	ruleTestedSentinelsAreWrapped(c, "R5.12", 2) // the fallbacks that keep a node going are taken on errors recognised with errors.Is
+	ruleSignedRound(c, "R5.8", sign)             // after a halt the partial signed is head+1, the only round that can be appended
 }
 
 func ruleTickLevers(c *Ctx, r1, r2 string, run, sign *ssa.Function) {
@@ -629,7 +631,9 @@ func runC10(c *Ctx) {
 	ruleNoWaitOnCancelledContext(c, "R10.4")
 	ruleResyncDecidedByRequest(c, "R10.4")
 	rulePeerAttemptStartsAtHead(c, "R10.4", tn)
-	ruleAppendStorePut(c, "R10.7") // a failed write leaves the head where it was, so the next peer can still deliver the round
+	ruleAppendStorePut(c, "R10.7")                                                      // a failed write leaves the head where it was, so the next peer can still deliver the round
+	ruleLayering(c, "R10.9")                                                            // the repair path is given the database itself: rounds below the head can be rewritten with verified beacons
+	ruleProducerClosesChannel(c, "R10.8", 2, "internal/net", "client", "internal/core") // a peer whose stream fails is abandoned: the channel tryNode reads from is closed on every way out
 }
 
 func ruleKeyProvenanceIn(c *Ctx, rule string, fn *ssa.Function) {
@@ -1037,6 +1041,7 @@ func runC11(c *Ctx) {
 	ruleHandOver(c, "R11.3")
 	ruleDispatchOrdered(c, "R11.4")
 	ruleDispatchLossless(c, "R11.5")
+	ruleLayering(c, "R11.7")       // rounds obtained by sync are stored through the dispatching layer too: live streams hear of them
 	ruleAppendStorePut(c, "R11.6") // the layer below the dispatcher refuses a round it already holds: no round is dispatched twice
 }
 
